@@ -49,6 +49,9 @@ CHECKS = {
  "C03": ("E1-enum", "bounded exhaustive enumeration of schema pairs (S, S') x values on the real decoder with the reference merge model as oracle",
    "S = every tuple of <=3 (thorough 4) fields over 12 skip-relevant encodings + sentinel; S' = every removal subset x every permutation with fresh names x optional added field; values = full product of {zero, nz1, nz2}; top level, nested as a field and as slice elements; targets pre-populated with sentinels. No error, shared indexes as decoding into S, absent/added fields keep their prior value, the field after skipped data is intact.",
    "Trusted: ref.Merge. Field kinds are one representative per wire class.", "§7 C03"),
+ "C08": ("E1-enum", "bounded exhaustive enumeration of type definitions (kinds x nesting positions x tag strings x duplicate arrangements) against the reference acceptance model, with a behavioural battery and a registry-poisoning probe",
+   "Every supported representative and every unsupported kind in 19 nesting positions x 4 configurations, the full 24-tag x 15-kind matrix, duplicate-index arrangements, skipped/unexported/blank fields, failing recursive definitions in every probe order: no panic; documented-invalid => non-empty error; accepted => round-trip and Size/Append battery on zero and non-zero values; after any rejection every independently valid sub-type still works on the same instance and no rejected sub-type is left usable; unexported and '-' fields are neither encoded nor written.",
+   "Trusted: ref.Accept. Indexes above 65536 are outside the alphabet (dense fieldsByIndex).", "§7 C08"),
 }
 NOT_YET = "check not built yet (in progress); see DESIGN.md §7 for the planned model-checking design"
 
